@@ -21,16 +21,59 @@ fixed(['C04'], 'b764424', 'after a solve with internal (non-persistent) scaling 
 fixed(['C06', 'C09'], '46fdfab', 'vector versions of changeLower/Upper/Lhs/Rhs scaled +-infinity in a persistently scaled LP (finite bound 2.5e99, wrong row type)')
 fixed(['C06', 'C09'], 'b9e2679', 'getLowerReal/getUpperReal/getLhsReal/getRhsReal (vector getters) unscaled +-infinity on a persistently scaled LP (returned e.g. 5e99)')
 fixed(['C06'], 'd3e5c49', 'clearLPReal()/clearLPRational() reset the LP sense to MAXIMIZE while the OBJSENSE parameter kept MINIMIZE')
+fixed(['C01', 'C09', 'C19'], '14b19fe', 'SSVectorBase::assign2productShort set num before clear(): out-of-bounds writes, segfault in SPxLeastSqSC::scale (scaler=5)')
+fixed(['C03'], 'c56a743', 'objValueRational() (and objValueReal() after an exact solve) ignored the objective offset')
+fixed(['C08', 'C01'], 'c6df7d3', 'postsolve of doubleton and multi-aggregation left the slacks of the other rows at their reduced-LP values (and set the aggregated row slack to 0)')
+fixed(['C07', 'C09'], '044eacf', 'changeObjRational() (3 overloads) ignored persistent scaling of the real LP: objReal() returned value * 2^colexp')
+fixed(['C07'], '84b6c95', 'syncLPRational() / real-only exact solves copied the persistently scaled real LP into the rational LP')
+fixed(['C14'], 'bd14627', 'readBasis() built default names x0, x0x1, x0x1x2, ... so basis files written with default names were rejected')
+fixed(['C07', 'C20'], '6ed0c9c', 'mpq_t array overloads of LPRowSetBase/LPColSetBase::add() did not grow scaleExp: heap-buffer-overflow in a later remove()')
 
 # ------------------------------------------------------------------ open findings
-# solution polishing: any certificate / reuse failure in a cell that switches polishing on
-open_(SOLVE, r'(cert\.|reuse\.|resolve\.|.*\.resume\.|.*wrong-verdict|complete\.).*:\{.*solution_polishing=[12].*\}.*',
+UND = r'(ABORT_CYCLING|RUNNING|UNKNOWN|ERROR|SINGULAR)'
+# --- simplex core
+open_(SOLVE, r'(cert\.|reuse\.|resolve\.|.*\.resume\.|.*wrong-verdict|complete\.|.*harmless|basis\.|resolve-after|copy-|twins|dependent).*:\{.*solution_polishing=[12].*\}.*',
       'solution polishing (solution_polishing=1|2) returns OPTIMAL with slack != Ax, bound violations or a wrong status after its extra pivots', regex=True,
       repro='./vcheck C01 (any seed): keys C01:cert.slack:{...solution_polishing=...}')
-open_(SOLVE, r'crash:.*SPxWeightST::generate\|SPxSolverBase::solve',
+open_(SOLVE + ['C14'], r'crash:.*SPxWeightST::generate\|SPxSolverBase::solve.*',
       'SPxWeightST::generate reads out of bounds for an LP without rows (starter=weight, row representation)', regex=True)
 open_(['C01'], r'cert\.(slack|redcost):\{\}\+needs\{simplifier\}',
-      'default configuration: when the simplifier removes the whole LP (or rows it proved redundant) the postsolved slack / reduced cost of a removed row/column is wrong although x and the objective are right (e.g. slack 0 for activity 9)', regex=True,
-      repro='findings/C01_vanished_slack.lp')
+      'default configuration: after the simplifier removed rows/columns the postsolved slack / reduced cost of a removed row/column can be wrong although x and the objective are right', regex=True)
+open_(['C04', 'C06', 'C16', 'C14'], r'(reuse\.[a-z\-]+|resolve\.status|[a-z]+\.resume|objlimit\.harmless-changes-status|state\.resolve-status)\.' + UND + r':.*',
+      'warm-started / resumed solves occasionally end undecided (ABORT_CYCLING, or RUNNING/UNKNOWN after an internal exception such as XLEAVE04) where a solve from scratch decides', regex=True)
+open_(['C06'], r'resolve\.status\.OPTIMAL:.*',
+      'after changeRange*/changeLhs/changeRhs made a nonbasic row free (or relaxed its active side to infinity) the warm-started solve keeps the row nonbasic with a nonzero dual and reports OPTIMAL in 0 iterations for an unbounded LP', regex=True,
+      repro='history: min, solve, setIntParam(OBJSENSE,max), changeRangeReal(vec) making the only row free, optimize -> OPTIMAL 150 (LP is unbounded)')
+open_(['C06'], r'(basis\.bind\.after\.remove.*|exception\.remove.*Invalid.*)',
+      'after removing rows while the LP is loaded with a basis, getBasisInd() reads stale basis ids (wrong indices or SPxException "Invalid index") although hasBasis() stays true', regex=True)
+open_(['C05'], r'.*\.rep=row\..*',
+      'row representation: getBasisInverseRowReal/ColReal/TimesVecReal, multBasis, multBasisTranspose return wrong values (multBasis accumulates into a DSVector with duplicate indices and adds scaled and unscaled columns; getBasisInverseColReal drops an spxLdexp result) - upstream "@todo does not work correctly"', regex=True)
+open_(['C05'], r'crash:.*(getBasisInverseColReal|getBasisInverseRowReal|getRowScaleExp).*',
+      'row representation: getBasisInverseColReal indexes the scale-exponent array with a basis index (heap-buffer-overflow / use-after-free)', regex=True)
+open_(['C17'], r'resolve-after-clearBasis-differs:.*',
+      'solving the same unmodified object again after clearBasis() is not a replica of the first solve (different iteration count / vertex in 1-3% of the LPs): per-solve state survives clearBasis()', regex=True)
+# --- exact solver
+open_(['C03', 'C04', 'C11'], r'.*lifting=1.*',
+      'exact solve with lifting=1: heap-buffer-overflow / use-after-free in _lowerFinite/_transformEquality (bound-type arrays not resized for the lifted LP), wrong verdicts, invalid Farkas proofs and rays', regex=True)
+open_(['C03'], r'objvalue.*:\{.*iterative_refinement=0.*\}.*',
+      'pure precision boosting (iterative_refinement=0): objValueRational() is 0 / misses the offset (objective value not computed on that path)', regex=True)
+# --- presolve (stand-alone SPxMainSM)
+open_(['C08'], r'postsolve\.(redcost|rcsign|compl-col|compl-row|dualsign)\.(okay|vanished):\{[^}]*Aggregation[^}]*\}',
+      'AggregationPS/MultiAggregationPS: when the basis status is swapped to the aggregated variable the dual of the aggregated row is not recomputed (redcost != c - A^T y, wrong dual signs)', regex=True)
+open_(['C08'], r'(postsolve\.(rcsign|compl-col|compl-row|dualsign|redcost)|basis\.(count|bound|singular))\.(okay|vanished):\{[^}]*TightenBounds[^}]*\}',
+      'TightenBoundsPS: dual postsolve / basis status after bound tightening is incomplete (nonbasic at a bound the original LP does not have, wrong number of basic variables)', regex=True)
+open_(['C08'], r'basis\.(bound|singular|count)\.(okay|vanished):\{[^}]*\}',
+      'postsolved basis can carry ON_LOWER/ON_UPPER/ZERO on a variable whose original bound is infinite / finite (FixVariable, FreeColSingleton, ZeroObjColSingleton, redundant-bound removal without PostStep)', regex=True)
+open_(['C08'], r'postsolve\.(compl-row|dualsign|compl-col|rcsign)\.(okay|vanished):\{[^}]*(ForceConstraint|RowSingleton)[^}]*\}',
+      'RowSingletonPS/ForceConstraintPS: dual of a removed singleton/forcing row gets the wrong sign for a row that is one-sided in the original LP', regex=True)
+open_(['C08'], r'objoffset\.(okay|vanished):\{[^}]*MultiAggregation[^}]*\}',
+      'multi-aggregation does not add the constant part of the substituted objective term to the objective offset (reduced optimum + getObjoffset() != original optimum)', regex=True)
+open_(['C08'], 'verdict.UNBOUNDED-on-infeasible:{}', 'simplifier reports UNBOUNDED for an LP that is (primal) infeasible and dual infeasible')
+open_(['C08'], 'verdict.VANISHED:{}', 'simplifier "solves" an infeasible LP outright (VANISHED), e.g. min -4y s.t. 8x-9y=-8, 4x-6y>=9, x>=2, y>=0',
+      repro='findings/C08_vanished_infeasible.lp')
+open_(['C08'], 'reduced-class:{}', 'reduced LP is unbounded/infeasible (even relaxed by 1e-9) although the original has a certified finite optimum',
+      repro='findings/C08_reduced_unbounded.lp')
+# --- file I/O
+open_(['C14', 'C12', 'C09'], r'exception\.[A-Za-z]+\.XMPSWR02.*', 'the MPS writer throws SPxInternalCodeException("XMPSWR02 This should never happen") for a free row (lhs=-inf, rhs=+inf) instead of writing it or returning false', regex=True)
 json.dump(dict(findings=F), open(os.path.join(V, 'known_findings.json'), 'w'), indent=1)
 print('wrote', len(F), 'entries')
